@@ -23,6 +23,7 @@ func allPropsUnsorted() []*propInfo {
 				"NOT decided: clock arithmetic (that attempt_at/expires_at values make a message due again), database semantics, the history-level claim itself.",
 			Assumptions: []string{k1Assumption, "database executes the statements as ent renders them"},
 			Rules: []ruleFn{
+				{ID: "C15.2", Doc: "[tab] (shared) foreign keys never cascade a delete into deliveries or messages: pruning a predecessor / parent cannot remove an outstanding delivery", Run: ruleC15_2},
 				{ID: "C01.1", Doc: "[who] retirement ownership of delivery rows", Run: ruleC01_1, Ctrl: true},
 				{ID: "C01.2", Doc: "[atoms] prune/ack selections are exactly their justification", Run: ruleC01_2},
 				{ID: "C01.3", Doc: "[dom] publish fan-out reaches every live subscription", Run: ruleC01_3},
@@ -65,8 +66,11 @@ func allPropsUnsorted() []*propInfo {
 				{ID: "C03.2", Doc: "[atoms] pull excludes completed rows", Run: ruleC03_2},
 				{ID: "C03.3", Doc: "[who] delivery rows are created only on publish/dead-letter", Run: ruleC03_3, Ctrl: true},
 				{ID: "C03.4", Doc: "[K5] idempotent ack/nack/modify-deadline", Run: ruleC03_4},
+				{ID: "C03.5", Doc: "[K5][dep] the request's ack ids reach the action complete and in place, or the request fails", Run: ruleC03_5},
 				{ID: "C06.5", Doc: "[atoms] (shared) a nack's candidates are outstanding: a late nack of an acked id has no side effect (no dead-letter forward, no reschedule)", Run: ruleC06_5},
 				{ID: "C09.6", Doc: "[dep] (shared) Execute is re-executable: a retried Acknowledge acks the same ids", Run: ruleC09_6},
+				{ID: "C09.2", Doc: "[dom] (shared) a successful Acknowledge is a committed one: the transaction runner reports a failed commit", Run: ruleC09_2},
+				{ID: "C09.3", Doc: "[K4] (shared) ...and so do the commit hooks the ack registers (they pass the Commit error on)", Run: ruleC09_3},
 			},
 		},
 		{
@@ -85,6 +89,8 @@ func allPropsUnsorted() []*propInfo {
 				{ID: "C04.4", Doc: "[atoms] postpone-only modify-deadline", Run: ruleC04_4},
 				{ID: "C04.5", Doc: "[dep] nack reschedules by the backoff", Run: ruleC04_5},
 				{ID: "C04.6", Doc: "[dep] reported attempt number", Run: ruleC04_6},
+				{ID: "C09.2", Doc: "[dom] (shared) a pull that reports success has committed its leases (attempt count and deadline): the transaction runner reports a failed commit", Run: ruleC09_2},
+				{ID: "C04.8", Doc: "[dom] the stream adapter folds per-id modify-deadline values with max (a positive value only postpones)", Run: ruleC04_8},
 				{ID: "C04.7", Doc: "[dep][tab] shape of the backoff: depends on attempt and policy, factor 1.1, defaults 10 s / 10 min, capped, jitter < 1 s", Run: ruleC04_7},
 			},
 		},
@@ -102,6 +108,7 @@ func allPropsUnsorted() []*propInfo {
 				{ID: "C05.3", Doc: "[dom] link set when found; errors returned", Run: ruleC05_3},
 				{ID: "C05.4", Doc: "[atoms] the eligibility gate", Run: ruleC05_4},
 				{ID: "C05.5", Doc: "[tab] predecessor FK is SET NULL", Run: ruleC05_5},
+				{ID: "C05.6", Doc: "[dep] every published message gets its own clock reading (no ties in the predecessor lookup)", Run: ruleC05_6},
 			},
 		},
 		{
@@ -256,6 +263,7 @@ func allPropsUnsorted() []*propInfo {
 				"NOT decided: the numeric invariant over interleavings, promptness.",
 			Assumptions: []string{k1Assumption, "sync.Mutex semantics; channel send on a buffered channel never blocks the waker"},
 			Rules: []ruleFn{
+				{ID: "C10.1", Doc: "[dom] (shared) the stream's refresher and sender re-arm their notifier before they query: an external ack landing during a refresh is not missed (the stream does not stall with capacity free)", Run: ruleC10_1_2},
 				{ID: "C11.1", Doc: "[lock] pending/fc under mu", Run: ruleC11_1},
 				{ID: "C11.2", Doc: "[dom] pending before send; fetch limits minus pending (C11.3)", Run: ruleC11_2_3},
 				{ID: "C11.4", Doc: "[dom] wake after release; settled ids leave the window (C11.7)", Run: ruleC11_4_7},
